@@ -769,7 +769,8 @@ func init() {
 			ctx = 4
 		}
 		out = append(out, Inst{Pkg: "knx", Fn: "HarnessC14Big", Args: []int64{32, 80}, Ctx: -1, RandChoice: true, Unwind: 4000, Note: "full default-sized history (32) of 80-byte telegrams, all reported lost"},
-			Inst{Pkg: "knx", Fn: "HarnessC14Big", Args: []int64{12, 254}, Ctx: -1, RandChoice: true, Unwind: 4000})
+			Inst{Pkg: "knx", Fn: "HarnessC14Big", Args: []int64{12, 254}, Ctx: -1, RandChoice: true, Unwind: 4000},
+			Inst{Pkg: "knx", Fn: "HarnessC14Big", Args: []int64{32, 8, 300}, Ctx: -2, RandChoice: true, Unwind: 4000, MaxSched: 100000, Note: "300 sends on one client, then 65535 telegrams reported lost: exactly the last 32 are repeated (one schedule)"})
 		out = append(out, Inst{Pkg: "knx", Fn: "HarnessC14Group", Args: []int64{3, 5}, Ctx: 2, RandChoice: true, Unwind: 2000, Note: "two group events through NewGroupRouter, both reported lost"},
 			Inst{Pkg: "knx", Fn: "HarnessC14Group", Args: []int64{16, 2}, Ctx: 2, RandChoice: true, Unwind: 2000})
 		for sc := int64(0); sc <= 4; sc++ {
@@ -783,8 +784,8 @@ func init() {
 		Quick:    func(l *loaded) []Inst { return c14(false) },
 		Thorough: func(l *loaded) []Inst { return c14(true) },
 		Covers:   []string{"C14.step.sent", "C14.step.sendfail", "C14.lost.resent", "C14.lost.partial", "C14.run.end", "C14.big.end", "C14.group.end"},
-		Bounds:   "one real Send / resendLost step from every retained history of length r <= R for R in 1..5 (thorough ..7) and R = 32 with r <= 3 (messages are distinct objects), lost count fully symbolic (0..65535), transmission failing at a nondeterministic position; a full history of 32 telegrams of 80 bytes (and 12 of 254 bytes) reported lost and compared byte for byte; two group events (payload symbolic) through NewGroupRouter reported lost and compared byte for byte; bounded runs of the real serve goroutine with senders, lost and busy indications, slow/absent reader and Close, a lost indication before, after and inside a busy period, context bound 3 (thorough 4)",
-		Outside:  "retain counts 4..31 and 33..64, 300-send histories (covered by induction over the one-step harness: Send and resendLost keep no state but the list), a lost indication arriving while an earlier resend is still in progress (excluded by the property)",
+		Bounds:   "one real Send / resendLost step from every retained history of length r <= R for R in 1..5 (thorough ..7) and R = 32 with r <= 3 (messages are distinct objects), lost count fully symbolic (0..65535), transmission failing at a nondeterministic position; a full history of 32 telegrams of 80 bytes (and 12 of 254 bytes) reported lost and compared byte for byte; 300 sends followed by a lost indication claiming 65535 telegrams (single schedule); two group events (payload symbolic) through NewGroupRouter reported lost and compared byte for byte; bounded runs of the real serve goroutine with senders, lost and busy indications, slow/absent reader and Close, a lost indication before, after and inside a busy period, context bound 3 (thorough 4)",
+		Outside:  "retain counts 4..31 and 33..64; histories longer than 300 sends (one 300-send history on a client built by NewRouter is run under a single schedule; beyond that, induction over the one-step harness: Send and resendLost keep no state but the list), a lost indication arriving while an earlier resend is still in progress (excluded by the property)",
 		Assume:   []string{"container/list is executed from its real SSA", "in the bounded runs math/rand.Float64 is one of {0, 0.5, 0.9999999}"},
 	})
 	c13 := func(thorough bool) []Inst {
